@@ -25,6 +25,13 @@
 // waits until database/sql's rollback has reached the driver (an event of the environment, not an
 // oracle), so the log order is the real order.
 //
+// A step with out = err returns an error of the kind named by its flavour `fl`: plain (the harness'
+// own), exec (the driver's statement error), wrap, notfound (gorm.ErrRecordNotFound), nfwrap (wrapped
+// with %w), dup1062 / dup1105 (*mysql.MySQLError duplicate key, plain and vitess), mysql1213, grpcnf /
+// grpcdup (what ToGRPC...Err produce), txdone, canceled, invalidtx.  The specification does not look
+// at the kind: any non-nil error stops the list, rolls back and comes back as it is.  `ret` reports
+// step i when the returned error is (or wraps) the very value closure i returned.
+//
 // neptune declares `go 1.19`: panic(nil) keeps its pre-1.21 meaning (recover() returns nil) for a
 // program built at that language level.  Pin it, whatever the harness module's go line says.
 
@@ -49,9 +56,12 @@ import (
 	"sync"
 	"time"
 
+	mysqldrv "github.com/go-sql-driver/mysql"
 	"github.com/pinealctx/neptune/store/gormx"
 	"github.com/pinealctx/neptune/ulog"
 	"go.uber.org/zap"
+	"google.golang.org/grpc/codes"
+	"google.golang.org/grpc/status"
 	"gorm.io/driver/mysql"
 	"gorm.io/gorm"
 	"gorm.io/gorm/logger"
@@ -90,8 +100,22 @@ func (p plan) rec() tr.E {
 // ---------------------------------------------------------------------------- event log
 
 type evlog struct {
-	mu  sync.Mutex
-	evs []tr.E
+	mu       sync.Mutex
+	evs      []tr.E
+	returned []retErr // the error values the step closures really returned, in order
+}
+
+type retErr struct {
+	i int
+	e error
+}
+
+// fails records the error value step i is about to return.
+func (l *evlog) fails(i int, e error) error {
+	l.mu.Lock()
+	l.returned = append(l.returned, retErr{i, e})
+	l.mu.Unlock()
+	return e
 }
 
 func (l *evlog) add(e tr.E) {
@@ -255,6 +279,38 @@ func (l *evlog) open() bool {
 	return begun && !l.over()
 }
 
+// errOf is the error value a failing step of the given kind returns.  The kinds are the classes of
+// errors the package (err.go: IsNotFoundErr, IsDupError, ToGRPC...) and its users distinguish; for
+// Transact they are all the same thing: a step that did not return nil.
+func errOf(i int, kind string) error {
+	tok := stepErr{i}.Error()
+	switch kind {
+	case "wrap":
+		return fmt.Errorf("wrapped: %w", stepErr{i})
+	case "notfound":
+		return gorm.ErrRecordNotFound
+	case "nfwrap":
+		return fmt.Errorf("%s lookup: %w", tok, gorm.ErrRecordNotFound)
+	case "dup1062":
+		return &mysqldrv.MySQLError{Number: 1062, Message: "Duplicate entry '" + tok + "' for key 'PRIMARY'"}
+	case "dup1105":
+		return &mysqldrv.MySQLError{Number: 1105, Message: "vttablet: duplicate entry '" + tok + "' for key"}
+	case "mysql1213":
+		return &mysqldrv.MySQLError{Number: 1213, Message: "Deadlock found when trying to get lock; " + tok}
+	case "grpcnf":
+		return status.Error(codes.NotFound, "db.item.not.exist "+tok)
+	case "grpcdup":
+		return status.Error(codes.AlreadyExists, "db.item.already.exist "+tok)
+	case "txdone":
+		return sql.ErrTxDone
+	case "canceled":
+		return context.Canceled
+	case "invalidtx":
+		return gorm.ErrInvalidTransaction
+	}
+	return stepErr{i}
+}
+
 func mkStep(l *evlog, i int, s step, cancel func()) gormx.GormProcFn {
 	return func(txn *gorm.DB) error {
 		l.add(tr.E{"ev": "step", "i": i})
@@ -294,16 +350,14 @@ func mkStep(l *evlog, i int, s step, cancel func()) gormx.GormProcFn {
 			switch s.Fl {
 			case "exec":
 				if wasOver { // the statement never reached the driver: the step fails all the same
-					return stepErr{i}
+					return l.fails(i, stepErr{i})
 				}
 				if xerr == nil {
 					tr.Fatal("step %d: planned statement failure did not happen", i)
 				}
-				return xerr
-			case "wrap":
-				return fmt.Errorf("wrapped: %w", stepErr{i})
+				return l.fails(i, xerr)
 			}
-			return stepErr{i}
+			return l.fails(i, errOf(i, s.Fl))
 		case "panic":
 			switch s.Fl {
 			case "rt":
@@ -378,9 +432,21 @@ func combine(rng *rand.Rand, fns []gormx.GormProcFn, base, depth int) (gormx.Gor
 
 // ---------------------------------------------------------------------------- one call
 
-func classify(err error, p plan) tr.E {
+func classify(err error, p plan, l *evlog) tr.E {
 	if err == nil {
 		return tr.E{"kind": "nil", "i": 0}
+	}
+	// the very value a step returned (or something that wraps it): that step's error.  Several
+	// steps may return the same singleton (gorm.ErrRecordNotFound ...): the first one that did.
+	l.mu.Lock()
+	returned := append([]retErr{}, l.returned...)
+	l.mu.Unlock()
+	for e := err; e != nil; e = errors.Unwrap(e) {
+		for _, r := range returned {
+			if e == r.e {
+				return tr.E{"kind": "step", "i": r.i}
+			}
+		}
 	}
 	var se stepErr
 	if errors.As(err, &se) {
@@ -486,7 +552,7 @@ func runOne(w *tr.W, rng *rand.Rand, src string, p plan) {
 		}()
 		e := gormx.Transact(db, args...)
 		returned = true
-		done <- tr.E{"ev": "ret", "r": classify(e, p), "what": fmt.Sprint(e)}
+		done <- tr.E{"ev": "ret", "r": classify(e, p, l), "what": fmt.Sprint(e)}
 	}()
 	fin := <-done
 
@@ -528,7 +594,8 @@ func readPlan(path string) plan {
 }
 
 var (
-	errFl   = []string{"plain", "exec", "wrap"}
+	errFl = []string{"plain", "exec", "wrap", "notfound", "nfwrap", "dup1062", "dup1105", "mysql1213",
+		"grpcnf", "grpcdup", "txdone", "canceled", "invalidtx"}
 	panicFl = []string{"plain", "perr", "pval", "rt"}
 )
 
@@ -539,6 +606,7 @@ func variants(full bool) []step {
 	v := []step{
 		st("ok", 0, "plain", "none"), st("ok", 1, "plain", "none"),
 		st("err", 0, "plain", "none"), st("err", 1, "exec", "none"),
+		st("err", 0, "notfound", "none"), st("err", 1, "dup1062", "none"), // kinds of error: all alike
 		st("panic", 1, "plain", "none"), st("panic", 0, "rt", "none"),
 		st("pnil", 1, "plain", "none"),
 		st("exit", 1, "plain", "none"),
@@ -546,6 +614,8 @@ func variants(full bool) []step {
 		st("ok", 0, "plain", "rollback"), st("ok", 1, "plain", "commit"), st("err", 1, "plain", "rollback"),
 	}
 	if full {
+		v = append(v, st("err", 1, "nfwrap", "none"), st("err", 0, "dup1105", "none"), st("err", 0, "mysql1213", "none"),
+			st("err", 0, "grpcnf", "none"), st("err", 1, "txdone", "none"))
 		v = append(v, st("ok", 1, "swallow", "none"), st("err", 1, "wrap", "none"), st("panic", 0, "perr", "none"),
 			st("panic", 1, "pval", "none"), st("pnil", 0, "plain", "none"), st("exit", 0, "plain", "none"),
 			st("ok", 0, "plain", "commit"), st("ok", 1, "plain", "rollback"), st("err", 0, "plain", "commit"),
@@ -664,8 +734,8 @@ func main() {
 	plans := flag.String("plans", "", "directory of TLC plans")
 	out := flag.String("out", "", "trace file")
 	seed := flag.Int64("seed", 1, "seed")
-	enumLen := flag.Int("enum", 3, "exhaustive enumeration over 11 step variants (+ cancellation points): maximal number of steps")
-	enumFull := flag.Int("enumfull", 2, "same over all 23 step variants (flavours): maximal number of steps")
+	enumLen := flag.Int("enum", 3, "exhaustive enumeration over 13 step variants (+ cancellation points): maximal number of steps")
+	enumFull := flag.Int("enumfull", 2, "same over all 30 step variants (flavours): maximal number of steps")
 	nrand := flag.Int("rand", 300, "number of random long plans")
 	maxLen := flag.Int("maxlen", 12, "maximal number of steps of a random plan")
 	flag.Parse()
